@@ -13,7 +13,7 @@
 (***************************************************************************)
 EXTENDS Emit
 
-Ns == IF Thorough THEN 1..4 ELSE 1..3
+Ns == (IF Thorough THEN 1..4 ELSE 1..3) \cup {6}
 Cs == IF Thorough THEN 1..3 ELSE 1..2
 LossDims == SetToSeq(({"mse", "bce"} \X {<<n>> : n \in Ns}) \cup ({"ce"} \X {<<n, c>> : n \in Ns, c \in Cs}))
 
